@@ -36,8 +36,18 @@ namespace fastscapelib
         constexpr int g_neighbors = 40;
         // diffusion ADI eroder: first half step done (aux: the intermediate elevation)
         constexpr int adi_half_step = 50;
+
+        // basin graph: degree bound of the Boruvka low-degree work list (library value: 16);
+        // a harness may lower it so that small terrains reach the large-degree code path
+        inline std::atomic<std::size_t>& boruvka_max_low_degree()
+        {
+            static std::atomic<std::size_t> v{ 16 };
+            return v;
+        }
     }
 }
+
+#define FSL_VERIF_HAS_KNOBS 1
 
 #define FSL_VERIF_POINT(site, obj, idx, aux)                                                       \
     do                                                                                             \
